@@ -12,6 +12,7 @@ import Placement.Lemmas.MergeSpec
   * `amounts_are_item_4`          the (provider, class, amount) triples `_consolidate_allocation_requests` returns are
                                   exactly `Spec.consolidate (Spec.placements …)`, the `alloc` of `Spec.build`; no object
                                   that existed before is touched (copy rule of the tree, generated)
+  * `mappings_are_item_4`         the mappings `_consolidate_allocation_requests` merges are `Spec.build`'s `maps`
   * `capacity_is_item_7`          `exceeds_capacity` against a provider summary = `Spec.limitOk`'s comparison
 
   What is NOT proved here (partial): that the per-group searches deliver exactly the providers satisfying `GroupSat` /
@@ -41,6 +42,35 @@ theorem amounts_are_item_4 (ctx : Ctx) (st : Store) (q : Query) (ps us : List Rp
     (∀ k n, (∃ e ∈ r.2, e.1 = k ∧ (getArr r.1 e.2).amount = n) ↔ (k, n) ∈ (build q ps us).alloc) :=
   consolidate_is_spec ctx st (placements q ps us) hmulti
 
+/-- ... and the mappings of the merged request are `Spec.build`'s mappings (suffixes are the names of the request
+groups: pairwise distinct) -/
+theorem mappings_are_item_4 (anchor : Nat) (q : Query) (ps us : List RpRow) (idsU : List Nat) (idsG : List (List Nat))
+    (h1 : q.groups.length = ps.length) (h2 : idsG.length = ps.length)
+    (hs : ((match q.unsuff with | some g => [g.suffix] | none => []) ++ q.groups.map (·.suffix)).Nodup) :
+    mergeMappings (specCombo anchor q ps us idsU idsG) = (build q ps us).maps :=
+  mergeMappings_is_spec anchor q ps us idsU idsG h1 h2 hs
+
+/-- **soundness of the merge stage on one combination**: whatever `_merge_candidates` adds to its result for a
+spec-shaped combination satisfies items 5 and 6 of the specification and carries the specification's mappings -/
+theorem accepted_combination_is_joint {R : Type} (db : DB R) (ctx : Ctx) (anchor : Nat) (q : Query) (ps us : List RpRow)
+    (idsU : List Nat) (idsG : List (List Nat)) (st : Store) (h1 : q.groups.length = ps.length) (h2 : idsG.length = ps.length)
+    (hnum : ctx.numGranular = q.groups.length) (hiso : ctx.isolate = q.isolate)
+    (hpar : ctx.parents = parentsOf db) (hss : ctx.sameSubtrees = q.sameSubtree)
+    (hs : ∀ s ∈ q.sameSubtree, ∀ g, q.unsuff = some g → s.contains g.suffix = false)
+    (hsfx : ((match q.unsuff with | some g => [g.suffix] | none => []) ++ q.groups.map (·.suffix)).Nodup)
+    (e : Entry) (he : e ∈ (mergeCombos ctx st [] [specCombo anchor q ps us idsU idsG]).2) :
+    (q.isolate = true → (ps.map (·.id)).Nodup) ∧
+    (∀ s ∈ q.sameSubtree, ∃ a ∈ Spec.subtreeProviders q s ps, ∀ b ∈ Spec.subtreeProviders q s ps, isAncOrSelf db a b) ∧
+    e.areq.maps = (build q ps us).maps := by
+  rcases Placement.Props.C02Merge.mergeCombos_only_adds_checked ctx _ st [] e he with h | ⟨combo, hc, st0, hg, hsub, hea, _⟩
+  · cases h
+  · rw [List.mem_singleton.mp hc] at hg hsub hea
+    have h56 := (filters_are_items_5_and_6 db ctx anchor q ps us idsU idsG h1 h2 hnum hiso hpar hss hs).mp ⟨hg, hsub⟩
+    refine ⟨h56.1, h56.2, ?_⟩
+    rw [hea]
+    show mergeMappings (specCombo anchor q ps us idsU idsG) = _
+    exact mappings_are_item_4 anchor q ps us idsU idsG h1 h2 hsfx
+
 theorem capacity_is_item_7 {R : Type} [LawfulCapOps R] (a : Int) (r : R) (used amount maxUnit : Int)
     (hnn : CapOps.capLt a r 0 = false) :
     Gen.summaryExceeded used amount (CapOps.capTrunc a r) maxUnit = false ↔
@@ -59,6 +89,7 @@ example : ((consolidateArrs exCtx ((placements exQ [exP, exP] []).map toArr) [] 
     (fun e => (e.1, (getArr (consolidateArrs exCtx ((placements exQ [exP, exP] []).map toArr) [] [0, 1]).1 e.2).amount)))
     = [((7, 0), 3)] := by decide
 example : Merge.groupPolicyOk exCtx (specCombo 7 exQ [exP, exP] [] [] [[0], [1]]) = true := by decide
+example : mergeMappings (specCombo 7 exQ [exP, exP] [] [] [[0], [1]]) = [(1, [7]), (2, [7])] := by decide
 example : Merge.groupPolicyOk { exCtx with isolate := true, policyNone := false }
     (specCombo 7 exQ [exP, exP] [] [] [[0], [1]]) = false := by decide
 
